@@ -36,7 +36,7 @@ type Server struct {
 	settings              serverSettings
 	settingsMu            sync.RWMutex
 	supportsConfiguration bool
-	payeeTemplatesCache   sync.Map // map[protocol.DocumentURI]map[string][]analyzer.PostingTemplate
+	payeeTemplatesCache   sync.Map // map[protocol.DocumentURI]*payeeTemplatesEntry
 	publishMu             sync.Mutex
 	docGen                atomic.Uint64 // bumped whenever the set or the text of open documents changes
 	docSeq                sync.Map      // map[protocol.DocumentURI]uint64: number of the latest open/change/close of each document
